@@ -407,10 +407,9 @@ def judge(chk, rows, origin, out):
     if printed != len(found):
         raise TlcError("Context_Trace printed %d verdicts, %d were parsed" % (printed, len(found)))
     for rid, v in found:
-        clause, step, opcode, detail, kf = "C13." + v[2], v[3], v[4], v[5], v[6]
+        clause, step, opcode, detail = "C13." + v[2], v[3], v[4], v[5]
         row = byid[rid]
-        sig = "%s|%s:%s|%s" % (clause, OPNAME[opcode] if 0 < opcode < len(OPNAME) else "row", detail,
-                               "KF_C13_%d" % kf if kf else "-")
+        sig = "%s|%s:%s" % (clause, OPNAME[opcode] if 0 < opcode < len(OPNAME) else "row", detail)
         text = "history [%s] step %d: observed %s (%s)" % (
             pretty(row["ops"], step), step, json.dumps(show_obs(row["obs"][step - 1]) if 0 < step <= len(row["obs"]) else {},
                                                        sort_keys=True), origin)
@@ -477,7 +476,6 @@ def run(chk):
     rnd = random.Random(chk.seed)
     seen = set()
     stats = {}
-    kf_predicted = {}
     runs = [(cfg, {}) for cfg in PARTS[chk.tier]]
     if not chk.quick():
         runs.append((SIM_CFG, {"simulate": SIM_TRACES, "depth": 70}))
@@ -498,8 +496,6 @@ def run(chk):
             if not kw:
                 seen.add(k)
             n += 1
-            for f in case["kf"]:
-                kf_predicted[f] = kf_predicted.get(f, 0) + 1
             ses.feed(cfg, case["ops"], case["obs"])
         del cases
         stats[cfg] = n
@@ -519,7 +515,6 @@ def run(chk):
     chk.extra["operations_by_kind"] = ses.by_op
     chk.extra["emitted_prediction_mismatches"] = ses.mismatching
     chk.extra["api_part_wall_s"] = round(time.time() - t_start, 1)
-    chk.extra["histories_predicted_to_hit_known_finding"] = kf_predicted
     for s in ses.samples:
         chk.sample(s)
     chk.rule = ("every history = prelude (0..3 nested scopes) + all operation sequences up to the length bound of each "
